@@ -277,6 +277,58 @@ def compare(w1: int, o1: int, n1: bool, w2: int, o2: int, n2: bool) -> bool:
     return H.done(isinstance(got, bool) and got == CMP[OP](i1, i2))
 
 
+def order_laws(w1: int, o1: int, n1: bool, w2: int, o2: int, n2: bool) -> bool:
+    """
+    pre: dt_ok(w1, o1) and dt_ok(w2, o2)
+    pre: finding_key(('eq',), o1, n1, n2) not in KNOWN
+    pre: H.fresh(w1, o1, n1, w2, o2, n2)
+    post: _
+    """
+    # the six comparison operators are one total order on instants, consistent with subtraction
+    a, b = mk_dt(w1, o1, n1), mk_dt(w2, o2, n2)
+    r = {op: yq.ev('$a %s $b' % op, a=a, b=b) for op in CMP}
+    ok = all(isinstance(v, bool) for v in r.values())
+    ok = ok and (int(r['<']) + int(r['=']) + int(r['>']) == 1) and r['<='] == (r['<'] or r['=']) \
+        and r['>='] == (r['>'] or r['=']) and r['!='] == (not r['='])
+    ok = ok and r['<'] == yq.ev('$b > $a', a=a, b=b) and r['<='] == yq.ev('$b >= $a', a=a, b=b)
+    ok = ok and r['<'] == yq.ev('($a - $b) < timespan()', a=a, b=b) and r['='] == yq.ev('($a - $b) = timespan()', a=a, b=b)
+    return H.done(ok)
+
+
+def utc_laws(wall: int, off_min: int, naive: bool) -> bool:
+    """
+    pre: dt_ok(wall, off_min) and part_ok(off_min, naive)
+    pre: finding_key(('utc', 'timestamp', 'eq'), off_min, naive, False) not in KNOWN
+    pre: H.fresh(wall, off_min, naive)
+    post: _
+    """
+    d = mk_dt(wall, off_min, naive)
+    exp_inst = wall - (0 if naive else off_min * 60 * US)
+    uu = yq.ev('$d.utc.utc', d=d)
+    ok = is_dt(uu) and off_us(uu) == 0 and inst(uu) == exp_inst
+    ok = ok and yq.ev('$d.utc = $d', d=d) is True and yq.ev('$d.utc != $d', d=d) is False
+    ok = ok and yq.ev('$d.utc - $d', d=d) == mk_ts(0) and S.us_of(yq.ev('$d.utc.offset', d=d)) == 0
+    ok = ok and eq_num(yq.ev('$d.utc.timestamp', d=d), yq.ev('$d.timestamp', d=d))
+    return H.done(ok)
+
+
+def add_assoc(wall: int, off_min: int, naive: bool, t1: int, t2: int) -> bool:
+    """
+    pre: dt_ok(wall, off_min) and WALL_LO <= wall + t1 <= WALL_HI and WALL_LO <= wall + t1 + t2 <= WALL_HI
+    pre: -TS_RANGE < t1 < TS_RANGE and -TS_RANGE < t2 < TS_RANGE and -TS_RANGE < t1 + t2 < TS_RANGE
+    pre: H.fresh(wall, off_min, naive, t1, t2)
+    post: _
+    """
+    d, a, b = mk_dt(wall, off_min, naive), mk_ts(t1), mk_ts(t2)
+    x = yq.ev('($d + $a) + $b', d=d, a=a, b=b)
+    y = yq.ev('$d + ($a + $b)', d=d, a=a, b=b)
+    z = yq.ev('($d + $a) - (-$b)', d=d, a=a, b=b)
+    ok = same_dt(x, wall + t1 + t2, off_min, naive) and same_dt(y, wall + t1 + t2, off_min, naive) \
+        and same_dt(z, wall + t1 + t2, off_min, naive)
+    ok = ok and S.us_of(yq.ev('(($d + $a) + $b) - $d', d=d, a=a, b=b)) == t1 + t2
+    return H.done(ok)
+
+
 def ts_units(t: int) -> bool:
     """
     pre: -TS_RANGE < t < TS_RANGE
@@ -341,11 +393,15 @@ def ts_scale(t: int) -> bool:
 GRID_WALL = [0, -1, 86399999999, 951782400000000, 951868799999999, 1164126600000000, 1709210096123456,
              -62135337600000000 + MARGIN, 253402300799999999 - MARGIN, 1230768000000000, 1078099199000001]
 GRID_OFF = [0, 180, -90, 1, -1439, 1439, 330]
+if H.P('grid') == 'large' or (H.P('driver') and False):
+    GRID_WALL = GRID_WALL + [w + d for w in (951782400000000, 1078099199000001, -2208988800000000, 4102444800000000)
+                             for d in (-1, 0, 1, 43200000000, 86399999999)]
+    GRID_OFF = GRID_OFF + [-180, 60, 765, -720]
 
 
 def calendar_sel(i: int, j: int, naive: bool) -> bool:
     """
-    pre: 0 <= i < len(GRID_WALL) and 0 <= j < len(GRID_OFF)
+    pre: 0 <= i < len(GRID_WALL) and H.P('jlo', 0) <= j < min(H.P('jhi', 99), len(GRID_OFF))
     post: _
     """
     with H.NoTracing():
@@ -438,13 +494,22 @@ def conditions(tier, seed):
     add('difference', 'difference', 'two datetimes, each: ' + dom)
     for op in CMP:
         add('compare[%s]' % op, 'compare', 'two datetimes, each: ' + dom, op=op)
+    add('order_laws', 'order_laws', 'two datetimes, each: ' + dom)
+    add('utc_laws', 'utc_laws', dom)
+    add('add_assoc', 'add_assoc', dom + '; two timespans, all integer microseconds keeping the sums in range')
     add('ts_units', 'ts_units', 'timespan: all integer microseconds, |t| < 10^9 days')
     add('ts_build', 'ts_build', 'six integer components of either sign (|days| < 10^8 ... |microseconds| < 10^18)')
     add('ts_arith', 'ts_arith', 'two timespans, all integer microseconds in range')
     for n in ([2, -3] if q else [0, 1, 2, -3, 1000, -10 ** 6]):
         add('ts_scale[%d]' % n, 'ts_scale', 'timespan all integer microseconds; factor %d' % n, n=n)
-    add('calendar_sel', 'calendar_sel', 'selection: %d wall clocks x %d offsets x naive/aware, real datetimes; each path '
-        'is one concrete evaluation' % (len(GRID_WALL), len(GRID_OFF)), timeout=120 if q else 300)
+    if q:
+        add('calendar_sel', 'calendar_sel', 'selection: %d wall clocks x %d offsets x naive/aware, real datetimes; each path '
+            'is one concrete evaluation' % (len(GRID_WALL), len(GRID_OFF)), timeout=120)
+    else:
+        for jlo in range(0, len(GRID_OFF) + 4, 2):
+            add('calendar_sel[%d]' % jlo, 'calendar_sel', 'selection: %d wall clocks x offsets #%d,#%d of the large grid x '
+                'naive/aware, real datetimes; each path is one concrete evaluation' % (len(GRID_WALL) + 20, jlo, jlo + 1),
+                timeout=600, grid='large', jlo=jlo, jhi=jlo + 2)
     for key, (func, what) in sorted(PROBES.items()):
         if key in KNOWN:
             out.append({'name': 'probe[%s]' % key.split('/')[1], 'func': func, 'timeout': 60, 'kind': 'probe',
@@ -589,13 +654,14 @@ def replay(cond, args):
     off, naive = vals.get('off_min', vals.get('o1', 0)), vals.get('naive', vals.get('n1', False))
     uses = {'ts_roundtrip': ('timestamp',), 'ts_inverse': ('timestamp',), 'timestamp_value': ('timestamp',),
             'utc_same_instant': ('utc',), 'probe_utc_keeps_zone': ('utc',), 'probe_naive_timestamp': ('timestamp',),
-            'compare': ('eq',) if p.get('op') in ('=', '!=') else (), 'probe_naive_equality': ('eq',)}.get(f, ())
+            'compare': ('eq',) if p.get('op') in ('=', '!=') else (), 'probe_naive_equality': ('eq',),
+            'order_laws': ('eq',), 'utc_laws': ('utc', 'timestamp', 'eq')}.get(f, ())
     if f == 'probe_naive_timestamp':
         naive = True
     if f == 'probe_naive_equality':
         key = 'C20/naive-equality'
     else:
-        key = finding_key(uses, off, naive, vals.get('n2'))
+        key = finding_key(uses, off, naive, vals.get('n2', False if f == 'utc_laws' else None))
     what = describe(f, p, vals, err)
     return {'reproduced': True, 'key': key or 'C20/%s' % f, 'what': what}
 
